@@ -335,6 +335,7 @@ func unlockBetween(f *ssa.Function, a, b ssa.Instruction) bool {
 // checkIndexRecording: the derivation path recorded for a new address carries the branch and the
 // index that were used to derive its key (Child(branch), Child(index)).
 func checkIndexRecording(c *Ctx, f *ssa.Function, rule, label string) {
+	setBindCtx(f)
 	key := label + ":recorded-path-is-derivation-path"
 	// Child calls: first level (branch) and second level (index)
 	var branchChild, indexChild []*ssa.Call
@@ -370,6 +371,9 @@ func checkIndexRecording(c *Ctx, f *ssa.Function, rule, label string) {
 				match = true
 			}
 		}
+		if !match && len(parallelChildPhi(st.Val)) > 0 {
+			match = true
+		}
 		if !match {
 			bad = "DerivationPath.Index is not the index the key was derived with"
 		}
@@ -397,6 +401,16 @@ func checkIndexRecording(c *Ctx, f *ssa.Function, rule, label string) {
 				if ok1 && ok2 && affineEqualModuloLoopStep(f, e1, e2) && domOrSame(cand, is) {
 					if ic == nil || domOrSame(ic, cand) {
 						ic = cand // the nearest dominating one
+					}
+				}
+			}
+		}
+		if ic == nil {
+			// the index recorded runs parallel to the key derived (skip loop written as a retry)
+			for _, is := range idxStores {
+				if is.Addr.(*ssa.FieldAddr).X == base {
+					if pc := parallelChildPhi(is.Val); len(pc) > 0 {
+						ic = pc[0]
 					}
 				}
 			}
@@ -435,6 +449,52 @@ func isConstEq(a, b ssa.Value) bool {
 	ka, ok1 := strip(a).(*ssa.Const)
 	kb, ok2 := strip(b).(*ssa.Const)
 	return ok1 && ok2 && ka.Value != nil && kb.Value != nil && ka.Value.ExactString() == kb.Value.ExactString()
+}
+
+// parallelChildPhi: the value v is a phi that runs parallel to a phi of derived keys: in the same block
+// there is a phi whose i-th edge is the result of Child(x_i) where x_i equals v's i-th edge, for every
+// edge — `k, err := key.Child(n); for err == ErrInvalidChild { n++; k, err = key.Child(n) }` leaves n
+// the argument of the call that produced k. Returns those Child calls (nil if the shape does not hold).
+func parallelChildPhi(v ssa.Value) []*ssa.Call {
+	p, ok := strip(v).(*ssa.Phi)
+	if !ok {
+		return nil
+	}
+	for _, in := range p.Block().Instrs {
+		kp, isPhi := in.(*ssa.Phi)
+		if !isPhi {
+			break
+		}
+		if kp == p || len(kp.Edges) != len(p.Edges) {
+			continue
+		}
+		var calls []*ssa.Call
+		okAll := true
+		for i, e := range kp.Edges {
+			var cl *ssa.Call
+			switch x := strip(e).(type) {
+			case *ssa.Extract:
+				cl, _ = x.Tuple.(*ssa.Call)
+			case *ssa.Call:
+				cl = x
+			}
+			if cl == nil || !isCall(cl, "(*"+pkgHD+".ExtendedKey).Child") {
+				okAll = false
+				break
+			}
+			a1, ok1 := affine(callArgs(cl)[0])
+			a2, ok2 := affine(p.Edges[i])
+			if !ok1 || !ok2 || !affineSame(a1, a2) {
+				okAll = false
+				break
+			}
+			calls = append(calls, cl)
+		}
+		if okAll && len(calls) > 0 {
+			return calls
+		}
+	}
+	return nil
 }
 
 // affineEqualModuloLoopStep: e1 == e2, where a leaf of e1 may be the post-increment of e2's leaf:
@@ -592,7 +652,9 @@ func checkC05(c *Ctx) Meta {
 			ok = okAddr && okMgr && okDigest
 			why = fmt.Sprintf("address-from-pubKey=%v manager-is-the-one-found=%v digest-is-callers=%v", okAddr, okMgr, okDigest)
 			// unknown key fails before signing
-			if u, _ := unreachableWhenCut(f, errorEdgeCut(f, gmLocs[0].Site, false), []ssa.Instruction{sp[0]}); u && len(errResults(gmLocs[0].Site)) > 0 {
+			// (the lookup and the signing may sit in different helpers: the success edge is cut at the lookup
+			// itself and at every helper call it executes through)
+			if u, _ := unreachableWhenCut(f, orCut(errorEdgeCut(f, gmLocs[0].Site, false), errorEdgeCut(f, gm[0], false)), []ssa.Instruction{sp[0]}); u && len(errResults(gmLocs[0].Site)) > 0 {
 				c.OK("C05-GATE", name+":unknown-key-fails-first", c.Pos(gm[0].Pos()), "signPocec unreachable unless getAddrManager succeeded")
 			} else {
 				c.Bad("C05-GATE", name+":unknown-key-fails-first", c.Pos(gm[0].Pos()), "signing is attempted for a key the wallet does not own")
@@ -929,6 +991,7 @@ func checkAddrIndex(c *Ctx) {
 // checkPersistOwnPath: each new public key is persisted under the (branch, index) of the very address
 // it belongs to (shared by C06-RMW and C05-BIND).
 func checkPersistOwnPath(c *Ctx, f *ssa.Function, rule string) {
+	setBindCtx(f)
 	// persisted under the address's own (branch,index)
 	puts := callsInBody(f, pkgKeystore+".putEncryptedPubKey") // also in a helper the reference does not know (summary.go)
 	key := "nextAddresses:key-persisted-under-own-path"
